@@ -405,6 +405,11 @@ static void tcp_complete_connect(std::weak_ptr<TcpSock> ws, uint64_t gen) {
     s->st = TcpSock::EST;
     s->ever_connected = true;
     s->last_activity = c->last_activity = G->now;
+    if (K->cut_dir >= 0 && K->conn_count++ == K->cut_conn) {
+        auto pipe = K->cut_dir == 0 ? c2s : s2c;
+        pipe->cut_at = K->cut_at;
+        pipe->cut_mode = K->cut_mode;
+    }
     K->tcps.push_back(c);
     l->acceptq.push_back(c);
     G->kmut++;
@@ -789,6 +794,7 @@ static ssize_t send_impl(int fd, const void *buf, size_t len, int flags) {
     if (!e) KERR(C_SEND, EBADF);
     Fault f;
     bool hit = fault_hit("send", f, fd);
+    size_t ri = K->record_calls ? K->callrec.size() - 1 : 0;
     if (auto s = std::dynamic_pointer_cast<TcpSock>(e->f)) {
         if (s->st == TcpSock::SYN_SENT) { if (s->nonblock) KERR(C_SEND, EAGAIN); }
         if (s->st != TcpSock::EST) {
@@ -798,6 +804,7 @@ static ssize_t send_impl(int fd, const void *buf, size_t len, int flags) {
         if (hit && f.kind == "errno" && !s->dead) {
             if (f.arg == EAGAIN) { G->logf("send(%d,%zu) = EAGAIN [fault]", fd, len); KERR(C_SEND, EAGAIN); }
             tcp_die_now(s, (int)f.arg);
+            G->count("fault.applied_errno");
             G->logf("send(%d,%zu) = %s [fault]", fd, len, strerror((int)f.arg));
             KERR(C_SEND, (int)f.arg);
         }
@@ -834,6 +841,7 @@ static ssize_t send_impl(int fd, const void *buf, size_t len, int flags) {
                 pipe->last_deliver = at;
                 G->after(at - G->now, [pipe] { pipe->fin_delivered = true; G->kmut++; });
                 if (s->in) s->in->blackholed = true;
+                if (p) tcp_schedule_death_checks(p);
             } else if (pipe->cut_mode == 2) {  // RST after the bytes
                 tcp_send_rst(s);
                 s->dead = true;
@@ -849,6 +857,7 @@ static ssize_t send_impl(int fd, const void *buf, size_t len, int flags) {
         G->kmut++;
         if (n < len) G->count("probe.partial_send");
         G->logf("send(%d,%zu) = %zu", fd, len, n);
+        if (K->record_calls && ri < K->callrec.size()) K->callrec[ri].res = (int64_t)n;
         KRET(C_SEND, (ssize_t)n);
     }
     if (auto s = std::dynamic_pointer_cast<UnixSock>(e->f)) {
@@ -900,6 +909,7 @@ ssize_t recv(int fd, void *buf, size_t len, int flags) {
         if (hit && f.kind == "errno" && !s->dead) {
             if (f.arg == EAGAIN) { G->logf("recv(%d,%zu) = EAGAIN [fault]", fd, len); KERR(C_RECV, EAGAIN); }
             tcp_die_now(s, (int)f.arg);
+            G->count("fault.applied_errno");
             s->in->rq.clear();
             G->logf("recv(%d,%zu) = %s [fault]", fd, len, strerror((int)f.arg));
             KERR(C_RECV, (int)f.arg);
@@ -1113,6 +1123,9 @@ int poll(struct pollfd *fds, nfds_t n, int timeout_ms) {
     bool hit = fault_hit("poll", f);
     if (timeout_ms != 0) maysleep_check(timeout_ms < 0 ? "poll(-1)" : "poll(timeout>0)");
     if (hit && f.kind == "eintr" && timeout_ms != 0) { G->logf("poll() = EINTR [fault]"); KERR(C_POLL, EINTR); }
+    // unwinding at the end of a run: every wait is interrupted, whether or not something is ready, so that
+    // library-internal wait loops (blocking calls) return to the harness
+    if (G->stopping && timeout_ms != 0) KERR(C_POLL, EINTR);
     int r = poll_eval(fds, n);
     Task *t = cur();
     uint64_t sig = 1469598103934665603ULL;
@@ -1130,6 +1143,7 @@ int poll(struct pollfd *fds, nfds_t n, int timeout_ms) {
         t->spin_blocked = false;
         r = poll_eval(fds, n);
     }
+    if (r || timeout_ms == 0) G->logf("poll(fd %d, tmo %d) = %d", n ? fds[0].fd : -1, timeout_ms, r);
     if (r || timeout_ms == 0) { t->poll_kmut = G->kmut; t->poll_sig = sig; t->ops_since_poll = 0; t->steps_at_poll = t->steps; G->trace(C_POLL, r); return r; }
     std::vector<struct pollfd> copy(fds, fds + n);
     Time dl = timeout_ms < 0 ? -1 : G->now + (Time)timeout_ms * MS;
@@ -1145,6 +1159,7 @@ int poll(struct pollfd *fds, nfds_t n, int timeout_ms) {
         return false;
     }, dl, "poll");
     r = poll_eval(fds, n);
+    G->logf("poll(fd %d, tmo %d) = %d after wait%s", n ? fds[0].fd : -1, timeout_ms, r, G->stopping ? " [stopping]" : "");
     if (r == 0 && G->stopping) KERR(C_POLL, EINTR);
     t->poll_kmut = G->kmut;
     t->poll_sig = sig;
